@@ -166,7 +166,9 @@ CHECKS["C16"] = dict(
          "permutation; sum append/reverse laws. Tie: 13 elements vs their models on exhaustive small lists; ~40 law oracles on the real "
          "elements (sort, flatten, zip, transpose, sublists, powerset, permutations, cartesian product, grading, membership, ...).",
     note=COMMON_NOTE + "powerset (powerset_eq_sublists: the element's doubling loop is List.sublists — exactly the sub-sequences, 2^n of them, no repetition for a "
-         "duplicate-free list) and permutations (n! lists, each a rearrangement) are theorems now. Partial: the cartesian product (diagonal order), sublists and what sorted() does are covered by the law "
+         "duplicate-free list), permutations (n! lists, each a rearrangement), sublists (contiguous_mem: exactly the non-empty contiguous pieces, n(n+1)/2 of them), "
+         "overlapping groups (windows_spec: window i = take k (drop i l), n+1-k of them) and run-length coding (rld_rle / rle_rld / rle_runs: inverse bijections between lists and lists of maximal runs) "
+         "are theorems now. Partial: the cartesian product (diagonal order) and what sorted() does are covered by the law "
          "oracles only (T5). Known finding F30: the empty product is 0.",
     technique="Lean 4 proof by induction on lists over loop-faithful models; differential correspondence; executable law oracles",
     ref="§5 C16")
